@@ -26,6 +26,8 @@ var modelled = map[string]string{
 	"time.(Time).UTC": "T-time", "time.(Time).Location": "T-time", "time.(Time).Format": "T-time", "time.Parse": "T-time",
 	"http.ParseTime": "T-time", "time.(Time).UnixNano": "T-time",
 	"path.IsAbs": "T-path",
+	"strings.SplitN": "T-strings",
+	"url.Parse": "T-url", "url.(*URL).String": "T-url",
 }
 
 func isModelled(key string) bool { _, ok := modelled[key]; return ok }
@@ -134,6 +136,7 @@ func (x *Exec) render(st *State, fr *Frame, verb byte, a fmtArg) (text string, h
 			return iv.Term, fmt.Sprintf("(strHostPath %s)", iv.Term)
 		case srt == "String" && verb == 'q':
 			x.use("T-quote")
+			x.declQuote()
 			return fmt.Sprintf("(quote %s)", iv.Term), fmt.Sprintf("(strHostPath %s)", iv.Term)
 		case srt == "Int" && (verb == 'v' || verb == 'd'):
 			if _, isBasic := inner.Type().Underlying().(*types.Basic); isBasic {
@@ -266,13 +269,56 @@ func (x *Exec) modelCall(st *State, fr *Frame, key string, cc *ssa.CallCommon, a
 	case "strings.IndexRune":
 		x.C.decl("(declare-fun indexRune (String Int) Int)")
 		return b(fmt.Sprintf("(indexRune %s %s)", args[0].Term, args[1].Term))
+	case "strings.SplitN":
+		// exact for a constant non-empty separator and n == 3
+		sc, ok1 := cc.Args[1].(*ssa.Const)
+		nc, ok2 := cc.Args[2].(*ssa.Const)
+		if !ok1 || !ok2 || sc.Value == nil || constant.StringVal(sc.Value) == "" || args[2].Term != "3" {
+			return Val{}, false
+		}
+		x.use(id)
+		_ = nc
+		s := x.bind(st, "split_s", "String", args[0].Term)
+		sep := args[1].Term
+		sl := len(constant.StringVal(sc.Value))
+		i1 := x.C.freshName("i1")
+		st.def(fmt.Sprintf("(define-fun %s () Int (str.indexof %s %s 0))", i1, s, sep))
+		r1 := x.C.freshName("r1")
+		st.def(fmt.Sprintf("(define-fun %s () String (str.substr %s (+ %s %d) (str.len %s)))", r1, s, i1, sl, s))
+		i2 := x.C.freshName("i2")
+		st.def(fmt.Sprintf("(define-fun %s () Int (str.indexof %s %s 0))", i2, r1, sep))
+		base := x.newRef(st)
+		name, srt := x.C.elemHeapName(tString), x.C.elemHeapSort(tString)
+		h := x.heap(st, name, srt)
+		row := fmt.Sprintf("(store (store (store ((as const (Array Int String)) \"\") 0 (ite (< %s 0) %s (str.substr %s 0 %s))) 1 (ite (< %s 0) %s (str.substr %s 0 %s))) 2 (str.substr %s (+ %s %d) (str.len %s)))",
+			i1, s, s, i1, i2, r1, r1, i2, r1, i2, sl, r1)
+		x.setHeap(st, name, srt, fmt.Sprintf("(store %s %s %s)", h, base, row))
+		ln := fmt.Sprintf("(ite (< %s 0) 1 (ite (< %s 0) 2 3))", i1, i2)
+		return Val{T: rt, Term: fmt.Sprintf("(mkSlice %s %s %s)", base, ln, ln)}, true
+	case "url.(*URL).String":
+		x.declURL(st)
+		x.use(id)
+		u := x.loadLoc(st, &Loc{Kind: locHeap, Ref: args[0].Term, Root: args[0].T.Underlying().(*types.Pointer).Elem()})
+		return Val{T: rt, Term: fmt.Sprintf("(urlString %s)", u.Term)}, true
+	case "url.Parse":
+		x.declURL(st)
+		x.use(id)
+		tup := rt.(*types.Tuple)
+		ut := tup.At(0).Type().Underlying().(*types.Pointer).Elem()
+		ok := fmt.Sprintf("(urlParseOk %s)", args[0].Term)
+		e := x.newSym(st, "urlerr", "Iface")
+		st.assume(fmt.Sprintf("(= (= %s nilI) %s)", e, ok))
+		st.assume(fmt.Sprintf("(=> (not (= %s nilI)) (and (= (asHTTP %s) 0) (= (asDavErr %s) 0) (not (hostPath %s))))", e, e, e, e))
+		ref := x.newRef(st)
+		x.storeLoc(st, &Loc{Kind: locHeap, Ref: ref, Root: ut}, Val{T: ut, Term: fmt.Sprintf("(urlParseVal %s)", args[0].Term)})
+		return Val{T: rt, Tup: []Val{{T: tup.At(0).Type(), Term: ite(ok, ref, "0")}, {T: tError, Term: e}}}, true
 	case "path.IsAbs":
 		return b(fmt.Sprintf("(str.prefixof \"/\" %s)", args[0].Term))
 	case "http.StatusText":
 		x.C.decl("(declare-fun statusText (Int) String)")
 		return b(fmt.Sprintf("(statusText %s)", args[0].Term))
 	case "fmt.Sprintf":
-		x.declQuote()
+		x.declFmt()
 		text, hp, _, ok := x.sprintf(st, fr, cc)
 		if !ok {
 			return Val{}, false
@@ -284,7 +330,7 @@ func (x *Exec) modelCall(st *State, fr *Frame, key string, cc *ssa.CallCommon, a
 		}
 		return Val{T: rt, Term: t}, true
 	case "fmt.Errorf":
-		x.declQuote()
+		x.declFmt()
 		text, hp, wrapped, ok := x.sprintf(st, fr, cc)
 		if !ok {
 			x.use(id)
@@ -339,11 +385,7 @@ func (x *Exec) modelCall(st *State, fr *Frame, key string, cc *ssa.CallCommon, a
 			return Val{}, false
 		}
 		x.use(id)
-		x.C.decl("(declare-fun atoiOk (String) Bool)")
-		x.C.decl("(declare-fun atoiVal (String) Int)")
-		// decimal digit strings parse to their value; the empty string does not parse; other texts unconstrained
-		x.C.decl("(assert (forall ((s String)) (! (=> (>= (str.to_int s) 0) (and (atoiOk s) (= (atoiVal s) (str.to_int s)))) :pattern ((atoiOk s)))))")
-		x.C.decl("(assert (not (atoiOk \"\")))")
+		x.declAtoi()
 		s := args[0].Term
 		e := x.newSym(st, "atoierr", "Iface")
 		st.assume(fmt.Sprintf("(= (= %s nilI) (atoiOk %s))", e, s))
@@ -386,16 +428,58 @@ func (x *Exec) modelCall(st *State, fr *Frame, key string, cc *ssa.CallCommon, a
 	return Val{}, false
 }
 
+func (x *Exec) declAtoi() {
+	x.C.decl("(declare-fun atoiOk (String) Bool)")
+	x.C.decl("(declare-fun atoiVal (String) Int)")
+	// decimal digit strings parse to their value; the empty string does not parse; other texts unconstrained
+	x.C.decl("(assert (forall ((s String)) (! (=> (>= (str.to_int s) 0) (and (atoiOk s) (= (atoiVal s) (str.to_int s)))) :pattern ((atoiOk s)))))")
+	x.C.decl("(assert (not (atoiOk \"\")))")
+}
+
+func (x *Exec) declFmt() {
+	x.C.decl("(declare-fun strHostPath (String) Bool)")
+	x.C.decl("(declare-fun hexOf (Int) String)")
+}
+
 func (x *Exec) declQuote() {
 	// T-quote: strconv.Quote / %q and strconv.Unquote
 	x.C.decl("(declare-fun quote (String) String)")
 	x.C.decl("(declare-fun unquoteOk (String) Bool)")
 	x.C.decl("(declare-fun unquoteVal (String) String)")
-	x.C.decl("(declare-fun strHostPath (String) Bool)")
-	x.C.decl("(declare-fun hexOf (Int) String)")
 	x.C.decl("(assert (forall ((s String)) (! (and (unquoteOk (quote s)) (= (unquoteVal (quote s)) s)) :pattern ((quote s)))))")
 	x.C.decl("(assert (forall ((s String)) (! (=> (unquoteOk s) (and (>= (str.len s) 2) (= (str.at s 0) (str.at s (- (str.len s) 1))) (or (= (str.at s 0) \"\\u{22}\") (= (str.at s 0) \"'\") (= (str.at s 0) \"`\")))) :pattern ((unquoteOk s)))))")
 	x.C.decl("(assert (forall ((s String)) (! (and (= (str.at (quote s) 0) \"\\u{22}\") (>= (str.len (quote s)) 2)) :pattern ((quote s)))))")
+}
+
+// declURL: T-url. urlString renders a URL value, urlParse reads one back. The only law assumed:
+// a URL consisting of just an absolute path whose first segment is non-empty survives the round trip.
+func (x *Exec) declURL(st *State) {
+	var ut types.Type
+	for _, p := range x.P.Pkgs {
+		for _, imp := range p.Types.Imports() {
+			if imp.Path() == "net/url" {
+				ut = imp.Scope().Lookup("URL").Type()
+			}
+		}
+	}
+	if ut == nil {
+		x.bail("net/url not imported")
+	}
+	s := x.C.sortOf(ut)
+	x.C.decl(fmt.Sprintf("(declare-fun urlString (%s) String)", s))
+	x.C.decl("(declare-fun urlParseOk (String) Bool)")
+	x.C.decl(fmt.Sprintf("(declare-fun urlParseVal (String) %s)", s))
+	u := ut.Underlying().(*types.Struct)
+	var args []string
+	for i := 0; i < u.NumFields(); i++ {
+		if u.Field(i).Name() == "Path" {
+			args = append(args, "p")
+		} else {
+			args = append(args, x.C.zero(u.Field(i).Type()))
+		}
+	}
+	pu := x.C.mkStruct(ut, args)
+	x.C.decl(fmt.Sprintf("(assert (forall ((p String)) (! (=> (and (str.prefixof \"/\" p) (not (str.prefixof \"//\" p))) (and (urlParseOk (urlString %s)) (= (%s (urlParseVal (urlString %s))) p))) :pattern ((urlString %s)))))", pu, x.C.selName(ut, fieldIndex(ut, "Path")), pu, pu))
 }
 
 func (x *Exec) declTime() {
